@@ -41,6 +41,11 @@ def make_run(g, seed):
     if cls == "S":
         pcfg.update({"fk": "sync", "ecb": rng.choice([None, "s"]), "ccb": None, "sc": [{"g": 1}]})
     steps.append({"op": "size_get", "p": 0})
+    idle_assign = (new is None or new >= 0) and rng.random() < 0.3
+    if idle_assign:
+        # the assignment is made while the pool is still empty; everything after runs against the assigned size
+        steps.append({"op": "resize_idle", "p": 0, "v": new})
+        steps.append({"op": "size_get", "p": 0})
     n1 = rng.randint(0, total)
     labels = []
     for lab, num in ((1, n1), (2, total - n1)):
@@ -60,6 +65,28 @@ def make_run(g, seed):
                 st["nc"] = rng.choice([num, num, max(1, num - 1)])
             steps.append(st)
     steps.append({"op": "idle"})
+    if idle_assign:
+        gates = [["w", lab, i, 0] for lab, num in labels for i in range(num)]
+        rng.shuffle(gates)
+        steps.append({"op": "size_get", "p": 0})
+        for k in gates:
+            steps.append({"op": "gate", "key": k})
+            steps.append({"op": "idle"})
+        if new != 0:
+            # second phase: empty again, back to the old size (or another one), more work
+            steps.append({"op": "flush", "p": 0, "rex": 1})
+            steps.append({"op": "idle"})
+            steps.append({"op": "resize_idle", "p": 0, "v": rng.choice([old, old, 1, 2, None])})
+            steps.append({"op": "size_get", "p": 0})
+            num = rng.choice([1, 2, 3, 5])
+            if cls == "S":
+                steps.append({"op": "spawn", "p": 0, "r": 3, "kind": "start", "num": num})
+            else:
+                steps.append({"op": "spawn", "p": 0, "r": 3, "kind": "apply", "fk": "sync", "sc": [{"g": 1}], "num": num})
+            steps.append({"op": "idle"})
+            steps.append({"op": "size_get", "p": 0})
+        return {"clean": True, "probe": False, "config": {"hmask": 0, "pools": [pcfg]}, "steps": steps,
+                "prop": "C15", "seed": seed, "grid": list(g)}
     # optional history before the read/assignment: a group cancelled while its spawner may be blocked, a flush
     if labels and rng.random() < 0.35:
         steps.append({"op": "cancel_group", "p": 0, "r": rng.choice(labels)[0]})
@@ -114,6 +141,7 @@ def exec_unit(prop, arg, agg, order):
             agg.stats[k] += v
     fired = sim.stats.get("probe:size_read_while_running", 0) or sim.stats.get("probe:size_set_while_running", 0) \
         or sim.stats.get("probe:size_set_while_waiting", 0)
+    set_busy = sim.stats.get("probe:size_set_while_running", 0) or sim.stats.get("probe:size_set_while_waiting", 0)
     if fired:
         agg.nontrivial.add(int(sim.digest(), 16))
         if len(agg.samples) < 3:
@@ -125,6 +153,8 @@ def exec_unit(prop, arg, agg, order):
             continue
         seen.add(v["oracle"])
         sig = "F-SIZE" if fired and (v["oracle"] != "getter_idle" or v.get("tainted")) else None
+        if v["oracle"] in ("limit_in_force", "raise_does_not_wake") and not set_busy:
+            sig = None        # the recorded finding needs an assignment made while tasks run or wait
         rec = {"order": order, "prop": prop, "oracle": v["oracle"], "msg": v["msg"], "run": run,
                "engine": "pool", "signature": sig}
         if known_entry(prop, sig, v["oracle"]) is not None:
